@@ -24,7 +24,9 @@ def run(ck, replay=None):
     n_cells = 40 if quick else 400
     n_mixed = 400 if quick else 6000
     jobs, meta = [], []
-    for i, (m, r, exe) in enumerate(exes):
+    # thorough repeats the whole matrix at several seeds: the interleavings seen differ from run to run
+    reps = 1 if quick else 6
+    for i, (m, r, exe) in [(i + 5000 * rep, f) for rep in range(reps) for i, f in enumerate(exes)]:
         jobs.append(tp.native_job(exe, "cells", ck.seed + i, n_cells, timeout=150 if quick else 1800))
         meta.append(("native", m, r, "cells", None))
         jobs.append(tp.native_job(exe, "mixed", ck.seed + 100 + i, n_mixed, timeout=150 if quick else 1800))
